@@ -59,7 +59,19 @@ void dtw_dba_{{ suffix }}(
     seq_t avg_step;
     idx_t path_length;
 
+    {%- if "ptrs" == suffix %}
+    // The compact warping paths matrix of a shorter series can be larger than that of the
+    // longest series (the width depends on the difference in length with the average).
+    idx_t wps_length = 0;
+    for (r_idx=0; r_idx<nb_ptrs; r_idx++) {
+        idx_t cur_length = dtw_settings_wps_length(t, lengths[r_idx], settings);
+        if (cur_length > wps_length) {
+            wps_length = cur_length;
+        }
+    }
+    {%- else %}
     idx_t wps_length = dtw_settings_wps_length(t, {{max_length}}, settings);
+    {%- endif %}
     wps = (seq_t *)malloc(wps_length * sizeof(seq_t));
 
     for (pi=0; pi<t; pi++) {
